@@ -361,6 +361,8 @@ def run(ck):
             tsc.append("mode=%d conns=%d startdt=1 rounds=2 maxconn=%d late=1" % (md, rng.range(2, 4), rng.range(1, 2)))
             tsc.append("mode=%d conns=%d startdt=0 rounds=2 maxconn=0 late=1 deny=%d" % (md, rng.range(2, 4), rng.range(1, 3)))
             tsc.append("mode=%d conns=%d startdt=1 rounds=1 maxconn=%d late=1 deny=%d" % (md, 4, 3, rng.range(1, 3)))
+            # the limit is reached AND a connection request callback is installed that agrees to everybody: the limit still holds
+            tsc.append("mode=%d conns=%d startdt=0 rounds=1 maxconn=%d deny=99" % (md, rng.range(3, 5), rng.range(1, 2)))
         for line in tsc:
             out, err, code = _c18.run_thr(ht, line)
             ck.evaluations += 1
